@@ -480,3 +480,53 @@ package dnsdata
 //@ ensures[addr4] err == nil && r.ip != nil && tbe16(old(ntok) + ite(r.c.Features.UseV2Keys, 3, 2), 1) ==> tokK[old(ntok) + ite(r.c.Features.UseV2Keys, 3, 2) + (4 + ite(hasloc(r.lo), 1, 0)) + 1] == 2 && len(tokB[old(ntok) + ite(r.c.Features.UseV2Keys, 3, 2) + (4 + ite(hasloc(r.lo), 1, 0)) + 1]) == 4 && tokB[old(ntok) + ite(r.c.Features.UseV2Keys, 3, 2) + (4 + ite(hasloc(r.lo), 1, 0)) + 1] == uf.ip4of(r.ip)
 //@ ensures[addr6] err == nil && r.ip != nil && tbe16(old(ntok) + ite(r.c.Features.UseV2Keys, 3, 2), 28) ==> tbytes(old(ntok) + ite(r.c.Features.UseV2Keys, 3, 2) + (4 + ite(hasloc(r.lo), 1, 0)) + 1, r.ip)
 //@ ensures[count] err == nil && r.ip != nil ==> ntok == old(ntok) + ite(r.c.Features.UseV2Keys, 3, 2) + (4 + ite(hasloc(r.lo), 1, 0)) + 2 && len(result0) == 1
+
+// ---- C01: composite lines: exactly the derived records, glue only when an address was given ------------------
+//@ func Rns.DerivedRecords
+//@ flag skip frame
+//@ requires r != nil
+//@ ensures[count] len(result) == 1 + ite(r.Raddr.ip != nil, 1, 0)
+//@ ensures[first] result[0] == addr(r.Rns1)
+//@ ensures[glue] r.Raddr.ip != nil ==> result[1] == addr(r.Raddr)
+//@ func Rmx.DerivedRecords
+//@ flag skip frame
+//@ requires r != nil
+//@ ensures[count] len(result) == 1 + ite(r.Raddr.ip != nil, 1, 0)
+//@ ensures[first] result[0] == addr(r.Rmx1)
+//@ ensures[glue] r.Raddr.ip != nil ==> result[1] == addr(r.Raddr)
+//@ func Rsrv.DerivedRecords
+//@ flag skip frame
+//@ requires r != nil
+//@ ensures[count] len(result) == 1 + ite(r.Raddr.ip != nil, 1, 0)
+//@ ensures[first] result[0] == addr(r.Rsrv1)
+//@ ensures[glue] r.Raddr.ip != nil ==> result[1] == addr(r.Raddr)
+//@ func Rdot.DerivedRecords
+//@ flag skip frame
+//@ requires r != nil
+//@ ensures[both] len(result) == 2 && result[0] == addr(r.Rsoa) && result[1] == addr(r.Rns)
+
+// Rtxt (type 16): the text is stored as a sequence of character strings of at most 127 bytes, each preceded by its
+// length byte: chunk c (0-based) is bytes [127c, 127c + n) of the text with n = min(127, len - 127c); nothing else.
+//@ spec txtchunk(i int, t []byte, c int) bool = tbyte1(i, min(127, len(t) - 127 * c)) && tokK[i + 1] == 2 && ref(tokB[i + 1]) == ref(t) && off(tokB[i + 1]) == off(t) + 127 * c && len(tokB[i + 1]) == min(127, len(t) - 127 * c)
+//@ func Rtxt.MarshalMap
+//@ updates ntok, tokK, tokS, tokB, tokN
+//@ flag skip frame
+//@ requires r != nil && r.c != nil
+//@ ensures[head] err == nil ==> rrhead(old(ntok) + ite(r.c.Features.UseV2Keys, 3, 2), 16, r.ttl, r.lo, r.iswildcard)
+//@ ensures[count] err == nil ==> ntok == old(ntok) + ite(r.c.Features.UseV2Keys, 3, 2) + (4 + ite(hasloc(r.lo), 1, 0)) + 2 * ((len(r.txt) + 126) / 127)
+//@ ensures[chunks] err == nil ==> forall(c, 0, (len(r.txt) + 126) / 127, txtchunk(old(ntok) + ite(r.c.Features.UseV2Keys, 3, 2) + (4 + ite(hasloc(r.lo), 1, 0)) + 2 * c, r.txt, c))
+//@ ensures[one] err == nil && len(result0) == 1
+//@ loop 0 invariant[pos] 0 <= sofar && sofar <= len(r.txt) && (sofar % 127 == 0 || sofar == len(r.txt)) && ntok == old(ntok) + ite(r.c.Features.UseV2Keys, 3, 2) + (4 + ite(hasloc(r.lo), 1, 0)) + 2 * ((sofar + 126) / 127) && r.txt == old(r.txt) && r.lo == old(r.lo) && r.c == old(r.c) && r.c.Features.UseV2Keys == old(r.c.Features.UseV2Keys) && r.ttl == old(r.ttl) && r.iswildcard == old(r.iswildcard)
+//@ loop 0 invariant[head] rrhead(old(ntok) + ite(r.c.Features.UseV2Keys, 3, 2), 16, r.ttl, r.lo, r.iswildcard)
+//@ loop 0 invariant[chunks] forall(c, 0, (sofar + 126) / 127, txtchunk(old(ntok) + ite(r.c.Features.UseV2Keys, 3, 2) + (4 + ite(hasloc(r.lo), 1, 0)) + 2 * c, r.txt, c))
+
+// Raux (generic record ':'): the declared type number, never a wildcard, the rdata bytes verbatim.
+//@ func Raux.MarshalMap
+//@ updates ntok, tokK, tokS, tokB, tokN
+//@ flag skip frame
+//@ requires r != nil && r.c != nil
+//@ ensures[key-v1] err == nil && !r.c.Features.UseV2Keys ==> traw(old(ntok), 8, r.lo) && traw(old(ntok) + 1, 9, uf.lower(r.dom))
+//@ ensures[key-v2] err == nil && r.c.Features.UseV2Keys ==> tlit(old(ntok), ResourceRecordsKeyMarker) && traw(old(ntok) + 1, 10, uf.lower(r.dom)) && traw(old(ntok) + 2, 8, r.lo)
+//@ ensures[head] err == nil ==> rrhead(old(ntok) + ite(r.c.Features.UseV2Keys, 3, 2), r.rtype, r.ttl, r.lo, false)
+//@ ensures[rdata] err == nil ==> tbytes(old(ntok) + ite(r.c.Features.UseV2Keys, 3, 2) + (4 + ite(hasloc(r.lo), 1, 0)), r.rdata)
+//@ ensures[count] err == nil ==> ntok == old(ntok) + ite(r.c.Features.UseV2Keys, 3, 2) + (4 + ite(hasloc(r.lo), 1, 0)) + 1 && len(result0) == 1
